@@ -342,6 +342,11 @@ pub fn drive(a: &Args) {
     let mut sample = json!(null);
     for run in 0..runs {
         let cap = CAPS[(run as usize + rng.random_range(0..CAPS.len())) % CAPS.len()];
+        // every tenth writer run uses a capacity around and beyond the largest UDP payload (Unix sockets and users of the public
+        // writer configure such sizes); few calls, because every datagram is tens of kilobytes of trace
+        let big = kind == "mlw" && run % 10 == 9;
+        let cap = if big { [65_508usize, 70_000, 100_000, 65_507][((run / 10) % 4) as usize] } else { cap };
+        let ops = if big { ops.min(16) } else { ops };
         match kind.as_str() {
             "mlw" => {
                 let tlen = [1usize, 1, 2, 0, 3][rng.random_range(0..5)];
@@ -351,6 +356,7 @@ pub fn drive(a: &Args) {
                 let mut s = Session::new(cap, &term, vec![]);
                 let mut seq = 0u64;
                 let mut dead = false;
+                let mut last_failed = false;
                 for _ in 0..ops {
                     // decide the outcome of the attempts this call may make (at most a few)
                     for _ in 0..4 {
@@ -361,7 +367,8 @@ pub fn drive(a: &Args) {
                         };
                         s.push_script(o);
                     }
-                    let (op, bytes) = if rng.random_range(0..10) == 0 {
+                    // a caller whose last call failed often simply flushes (again) next
+                    let (op, bytes) = if rng.random_range(0..10) == 0 || (last_failed && rng.random_bool(0.5)) {
                         ("flush", vec![])
                     } else {
                         seq += 1;
@@ -376,6 +383,7 @@ pub fn drive(a: &Args) {
                     rec.call(op, &bytes);
                     match s.call(op, &bytes) {
                         CallRes::Done(res, atts, st) => {
+                            last_failed = res.is_err();
                             rec.atts(&atts);
                             rec.ret(&res);
                             trace.ev(json!({"ev":"st","written":st.0,"buffered":st.1,"capacity":st.2}));
@@ -432,6 +440,7 @@ pub fn drive(a: &Args) {
                 let mut sink = Some(sink);
                 let mut seq = 0u64;
                 let mut filled = 0usize;
+                let mut last_failed = false;
                 let mut inchan = 0usize;
                 let mut alive = true;
                 fn drain(rx: &crossbeam_channel::Receiver<Vec<u8>>, evs: &mut Vec<Value>, holes: &mut VecDeque<usize>) {
@@ -458,7 +467,7 @@ pub fn drive(a: &Args) {
                         drain(&rx, &mut evs, &mut holes);
                         inchan = 0;
                     }
-                    let (op, text) = if rng.random_range(0..10) == 0 {
+                    let (op, text) = if rng.random_range(0..10) == 0 || (last_failed && rng.random_bool(0.5)) {
                         ("flush", String::new())
                     } else {
                         seq += 1;
@@ -472,6 +481,7 @@ pub fn drive(a: &Args) {
                         _ => sink.as_ref().unwrap().flush().map(|_| 0).map_err(|e| io_kind(&e)),
                     }));
                     let wrote = account(&mut evs, &mut holes, &mut inchan);
+                    last_failed = matches!(r, Ok(Err(_)));
                     match r {
                         Ok(res) => {
                             match &res {
